@@ -47,6 +47,10 @@ func verifLoad(path string) error {
 func verifNext(kind string) string {
 	verifMu.Lock()
 	defer verifMu.Unlock()
+	// values chosen by the environment model (json/rand failures, clock readings) are not consumed natively
+	for verifPos < len(verifDoc.Vector) && (len(verifDoc.Vector[verifPos].Kind) > 4 && verifDoc.Vector[verifPos].Kind[:4] == "ext-" || verifDoc.Vector[verifPos].Kind == "now") {
+		verifPos++
+	}
 	if verifPos >= len(verifDoc.Vector) {
 		verifExhausted = true
 		return ""
